@@ -23,7 +23,12 @@
 (***************************************************************************)
 EXTENDS Integers, Sequences, FiniteSets, TLC
 
-CONSTANTS Variants,        \* set of [prog |-> STRING, on |-> set of optional stages switched on]
+CONSTANTS Variants,        \* set of [prog |-> STRING, on |-> set of optional stages switched on, route |-> STRING]
+                           \* route = how the output path is spelled (path-resolution parameter of the instance):
+                           \* "plain" (file name in the cwd), "symdir" (through a directory that is a symbolic link),
+                           \* "dots" (./sub/../name), "abs" (absolute).  All claims are stated on the path AS GIVEN: "out" is
+                           \* what is read at that spelling; for conforming code the route changes nothing in the behaviour.
+          RouteInits,      \* the initial directories combined with the non-plain routes (all of Inits with "plain")
           NBk,             \* backup names modelled per target: #name.1# .. #name.NBk#
           Inits,           \* set of [out |-> BOOLEAN, bk |-> SUBSET 1..NBk, link |-> BOOLEAN]: is there a file at the
                            \* output path / which backup names exist / is the output path a symbolic link to a regular file
@@ -37,7 +42,10 @@ CONSTANTS Variants,        \* set of [prog |-> STRING, on |-> set of optional st
           DevNoBackup,         \* deviation: the temporary file is moved over an existing file without backup
           DevSeqOpenEarly,     \* deviation: gen_seq opens (truncates) the output before the graph exists (mutant m40)
           DevLinkDirect,       \* deviation: an output path that is a symbolic link is opened directly (written through the link)
-          DevBackupCount       \* deviation: backup index = number of existing backups + 1 instead of the first free index
+          DevBackupCount,      \* deviation: backup index = number of existing backups + 1 instead of the first free index
+          DevRouteDiscard      \* deviation: before the flush the program drops every queued file whose destination is not
+                               \* literally its own spelling of the output path; the writer stores the path with the directory
+                               \* part resolved, so through a symlinked directory the program drops its own file
 
 VARIABLES run,     \* 1..Runs
           var,     \* variant of the current run
@@ -104,7 +112,7 @@ Special == {"open", "write", "flush", "popen", "pwrite"}
 Init == /\ run = 1
         /\ var \in Variants
         /\ target = "out"
-        /\ \E ini \in Inits : fs = InitFs(ini)
+        /\ \E ini \in Inits : (var.route = "plain" \/ ini \in RouteInits) /\ fs = InitFs(ini)
         /\ fs0 = fs
         /\ queue = <<>> /\ cur = Nil /\ loose = <<>>
         /\ pc = 0 /\ sub = "idle" /\ idx = 0 /\ status = "running"
@@ -152,10 +160,11 @@ WriteEnd ==   /\ Running /\ sub = "part"
               /\ UNCHANGED <<run, var, target, fs0, cur, loose, idx, status>>
 
 \* DeferredFileWriter.write(): while open_files: popleft; _write_file
+Qeff == IF DevRouteDiscard /\ var.route = "symdir" THEN <<>> ELSE queue
 FlushBegin == /\ Running /\ sub = "idle" /\ NextStage = "flush"
-              /\ IF queue = <<>>
-                 THEN /\ pc' = pc + 1 /\ Done("flush") /\ UNCHANGED <<queue, cur, sub, idx>>
-                 ELSE /\ cur' = Head(queue) /\ queue' = Tail(queue) /\ sub' = "find" /\ idx' = 0
+              /\ IF Qeff = <<>>
+                 THEN /\ pc' = pc + 1 /\ Done("flush") /\ queue' = <<>> /\ UNCHANGED <<cur, sub, idx>>
+                 ELSE /\ cur' = Head(Qeff) /\ queue' = Tail(Qeff) /\ sub' = "find" /\ idx' = 0
                       /\ pc' = pc /\ Micro("flush")
               /\ UNCHANGED <<run, var, target, fs0, fs, loose, status>>
 \* _find_free_path: candidate 0 is the path itself, then #name.1#, #name.2# ... until one does not exist
